@@ -46,7 +46,7 @@ RefPlain(p) ==
 
 \* ---- target literal configurations --------------------------------------
 \* K == [esc: code point or -1, wm: token (<<>> = unsupported), ws: token, add: set of extra
-\*       escaped chars, filt: set of removed chars, quote: code point or -1]
+\*       escaped chars, filt: set of removed chars, quote: code point or -1, cq: quote only values with a blank]
 NONE == 0 - 1
 TokChars(K) == {K.wm[i] : i \in 1..Len(K.wm)} \cup {K.ws[i] : i \in 1..Len(K.ws)}
 Meta(K) == TokChars(K) \cup K.add \cup (IF K.quote = NONE THEN {} ELSE {K.quote})
@@ -63,11 +63,16 @@ DecodeFrom(K, t, i) ==
     ELSE <<t[i]>> \o DecodeFrom(K, t, i + 1)
 DecodeBody(K, t) == DecodeFrom(K, t, 1)
 
-\* a complete literal: quoted (quote body quote) or bare
+\* a complete literal: quoted (quote body quote) or bare.  Under conditional quoting (K.cq: only values with a blank
+\* are quoted) a bare word ends at a blank, so a blank inside a bare literal is not part of it.
+QuotedForm(K, t) == K.quote # NONE /\ Len(t) >= 2 /\ t[1] = K.quote /\ t[Len(t)] = K.quote
 DecodeLiteral(K, t) ==
-    IF K.quote # NONE /\ Len(t) >= 2 /\ t[1] = K.quote /\ t[Len(t)] = K.quote
-    THEN DecodeBody(K, Slice(t, 2, Len(t) - 1))
+    IF QuotedForm(K, t) THEN DecodeBody(K, Slice(t, 2, Len(t) - 1))
+    ELSE IF K.cq /\ (\E i \in 1..Len(t) : t[i] = 32) THEN <<BAD>>
     ELSE DecodeBody(K, t)
+HasBlank(p) == \E i \in 1..Len(p) : p[i] = 32
+\* is the literal of value p to be quoted under K?
+MustQuote(K, p) == K.quote # NONE /\ (~K.cq \/ HasBlank(p))
 
 FilterParts(K, p) == SelectSeq(p, LAMBDA x : x \notin K.filt)
 Supported(K, p) == /\ (K.wm = <<>> => \A i \in 1..Len(p) : p[i] # STAR)
